@@ -370,6 +370,11 @@ func (tb *termBuilder) term(v ssa.Value, at ssa.Instruction) *Term {
 		if name == "" {
 			name = x.Name()
 		}
+		if x.Comment == "complit" && at != nil && at != ssa.Instruction(x) {
+			// pointer to a composite literal: show what it points to at the point of use
+			inner := tb.loadLocal(x, nil, at)
+			return &Term{Op: "unop", Name: "&", Args: []*Term{inner}, V: v, In: x}
+		}
 		return &Term{Op: "addr", Name: name, V: v, In: x}
 	case *ssa.MakeMap:
 		return &Term{Op: "other", Name: "makemap", V: v, In: x}
